@@ -64,7 +64,7 @@ pub fn gen_float(rng: &mut Rng, sw: &Swarm) -> Op {
                 Op::new(&nm("tof")).a(a).form(rng.below(2))
             }
         }
-        36 | 37 => Op::new(rng.pick(&["fd.todec", "fd.tobin", "fd.rounding"])).a(a).dst(d),
+        36 | 37 => Op::new(rng.pick(&["fd.todec", "fd.tobin", "fd.rounding", "fd.viahex", "fd.viaoct"])).a(a).dst(d),
         38 => Op::new(&nm("rt")).a(a).dst(d).form(rng.below(9)).n(rng.below(40) as i64),
         _ => Op::new(&nm("clonefrom")).a(a).dst(d),
     }
